@@ -451,7 +451,7 @@ pub fn gen_request(t: &mut Tape, meta: &Meta, now_ns: u128, k: &ReqKnobs) -> Req
     };
     if want_range {
         let n = if k.ranges == 2 {
-            2 + t.draw(7)
+            2 + t.draw(if crate::core::deep() { 14 } else { 7 })
         } else {
             [1u32, 1, 1, 2, 3, 5][t.draw(6) as usize]
         };
